@@ -11,6 +11,7 @@ RULE = ("seeded programs over the random-consuming APIs (rand/randn/normal/randi
         "dtype, shape and bytes of every produced array must coincide; an RNG tap wraps numpy.random.default_rng/RandomState/SeedSequence, "
         "random.Random/SystemRandom and os.urandom and reports any generator constructed from library code without a seed. distinct key = "
         "(program kind, seed, parameters); non-trivial = the program draws random numbers or has fan-in >= 40")
+RULE += (" Added after the seeded rounds: programs reseed-existing-model, retrain-existing-model (new optimizers over the same parameters), split-arrays (the caller's arrays reused), train-conv, apply-init, onehot-strings, degenerate layer widths after polluted freed memory.")
 ASSUMPTIONS = ["BLAS pinned to one thread in every child (thread-count dependent reduction order is outside the property)",
                "bit-identity is required across processes on this machine, not across machines"]
 SHARD_TIMEOUT = {"quick": 900, "thorough": 3600}
